@@ -945,3 +945,99 @@ fn case_recover(r: &mut Rng, case: usize, out: &mut Sink, dir: &str) {
         }
     }
 }
+
+// ------------------------------------------------------------------------------------------------ real crash images
+
+/// C03 on REAL crash images (called by the crash / power-loss enumeration with `--wal-driver <nomt_model>`): if the
+/// crashed directory `d` holds a non-empty WAL, run the real `bitbox::recover` (through `DB::open`, in-process) on a
+/// copy of its `ht` / `wal`, then let the Lean driver read the crashed WAL with its reader mirror, apply its redo to
+/// the crashed `ht` and compare with the recovered copy (`walredo`).  The harness itself checks that the real
+/// recovery changed no page the model does not name.
+pub fn monitor_crash_image(out: &mut Sink, driver: &str, d: &str, desc: &str) {
+    let wal_len = std::fs::metadata(format!("{d}/wal")).map(|m| m.len()).unwrap_or(0);
+    if wal_len == 0 {
+        out.count("wal_images_empty");
+        return;
+    }
+    let Ok(meta) = std::fs::read(format!("{d}/meta")) else { return };
+    if meta.len() < 64 {
+        return;
+    }
+    let seqn = u32::from_le_bytes(meta[24..28].try_into().unwrap());
+    let n = u32::from_le_bytes(meta[28..32].try_into().unwrap());
+    let mut seed = [0u8; 16];
+    seed.copy_from_slice(&meta[32..48]);
+    let r = format!("{d}.wr");
+    let _ = std::fs::remove_dir_all(&r);
+    if std::fs::create_dir_all(&r).is_err() {
+        return;
+    }
+    for f in ["ht", "wal", "meta"] {
+        if std::fs::copy(format!("{d}/{f}"), format!("{r}/{f}")).is_err() {
+            let _ = std::fs::remove_dir_all(&r);
+            return;
+        }
+    }
+    let open = |f: &str| std::fs::OpenOptions::new().read(true).write(true).open(format!("{r}/{f}"));
+    let (Ok(ht), Ok(wf)) = (open("ht"), open("wal")) else {
+        let _ = std::fs::remove_dir_all(&r);
+        return;
+    };
+    let verdict = match catch_unwind(AssertUnwindSafe(move || open_and_recover(seqn, n, seed, ht, wf))) {
+        Err(_) => "panic".to_string(),
+        Ok(Err(e)) => format!("err {}", err_kind(&format!("{e:#}"))),
+        Ok(Ok(())) => "ok".to_string(),
+    };
+    out.count("wal_images_checked");
+    if verdict != "ok" {
+        out.fail(format!("C03 bitbox recovery of a crashed directory fails ({verdict}) after {desc}"));
+    }
+    let res = std::process::Command::new(driver)
+        .arg("wal")
+        .stdin(std::process::Stdio::piped())
+        .stdout(std::process::Stdio::piped())
+        .stderr(std::process::Stdio::null())
+        .spawn()
+        .and_then(|mut c| {
+            c.stdin.take().unwrap().write_all(format!("walredo {d} {r} {verdict}\n").as_bytes())?;
+            c.wait_with_output()
+        });
+    match res {
+        Err(e) => out.fail(format!("C03 WAL driver could not be run: {e}")),
+        Ok(o) => {
+            let line = String::from_utf8_lossy(&o.stdout).lines().next().unwrap_or("").to_string();
+            if !line.starts_with("ok ") {
+                out.fail(format!("C03 WAL redo monitor: {} after {desc}", line.chars().take(300).collect::<String>()));
+            } else {
+                let field = |k: &str| line.split(' ').find_map(|t| t.strip_prefix(k)).unwrap_or("").to_string();
+                let list = |s: String| -> std::collections::BTreeSet<usize> { s.split('.').filter_map(|x| x.parse().ok()).collect() };
+                out.count(&format!("wal_images_{}", field("state=")));
+                out.add("wal_image_entries", field("entries=").parse().unwrap_or(0));
+                // the complement: no other page of ht changed
+                let buckets = list(field("buckets="));
+                let metas = list(field("metas="));
+                if let (Ok(a), Ok(b)) = (std::fs::read(format!("{d}/ht")), std::fs::read(format!("{r}/ht"))) {
+                    let mp = (n as usize + 4095) / 4096;
+                    if a.len() != b.len() {
+                        out.fail(format!("C03 recovery changed the size of ht after {desc}"));
+                    } else {
+                        for pn in 0..a.len() / PAGE {
+                            if a[pn * PAGE..(pn + 1) * PAGE] == b[pn * PAGE..(pn + 1) * PAGE] {
+                                continue;
+                            }
+                            let named = if pn < mp { metas.iter().any(|m| m / PAGE == pn) } else { buckets.contains(&(pn - mp)) };
+                            if !named {
+                                out.fail(format!("C03 recovery changed page {pn} of ht, which no WAL entry names, after {desc}"));
+                                break;
+                            }
+                        }
+                        if !buckets.is_empty() || !metas.is_empty() {
+                            out.nontrivial(&format!("{desc} {line}"));
+                        }
+                    }
+                }
+            }
+        }
+    }
+    let _ = std::fs::remove_dir_all(&r);
+}
